@@ -584,6 +584,7 @@ class GenerateExploitsLoop(LoopContract):
 
 @contract
 class GenerateExploits(Contract):
+    standin_by_monitor = True     # bounded stand-in when out of the engine's reach: the generator run-time monitor
     may_draw = True
     qualname = GQ + "_generate_exploits"
     callable_by_contract = False
@@ -615,6 +616,7 @@ class GenerateExploits(Contract):
 # ASSUMED injective in i)
 
 class _GenerateNames(Contract):
+    standin_by_monitor = True     # bounded stand-in when out of the engine's reach: the generator run-time monitor
     callable_by_contract = False
     bounded = False
     tags = {"": ("C15",)}
@@ -728,6 +730,7 @@ class GeneratePrivescsLoop(GenerateExploitsLoop):
 
 @contract
 class GeneratePrivescs(Contract):
+    standin_by_monitor = True     # bounded stand-in when out of the engine's reach: the generator run-time monitor
     may_draw = True
     qualname = GQ + "_generate_privescs"
     callable_by_contract = False
